@@ -206,12 +206,53 @@ def run_one(ctx, c, setname, kind, a, do_facade, transports):
             observe(ctx, c, setname, "facade", full, cmd2.cdb, c.op)
             ctx.count("cdbs_checked")
             ctx.count("facade_cdbs_checked")
+    # -- the facade attached for real (SCSI(dev)) to a device whose standard INQUIRY data is anything a device of that type may
+    #    report (VERSION 00h..07h, every capability bit, 36..96 bytes): what the device says about itself does not change the CDB
+    if do_facade and c.facade and TICK[0] % 8 == 3 and kind != "huge*":
+        import random as _random
+
+        import pyscsi.pyscsi.scsi_enum_command as E
+        from pyscsi.pyscsi.scsi import SCSI
+
+        from vmon.spec import datain as D
+
+        f = D.FORMATS["inquiry.standard"]
+        irng = _random.Random("c01inq:%d" % TICK[0])
+        v = f.gen(irng)
+        v["peripheral_device_type"], v["peripheral_qualifier"] = {"sbc": 0x00, "mmc": 0x05, "ssc": 0x01, "smc": 0x08, "spc": 0x03}.get(setname, 0), 0
+        v["version"] = irng.randrange(8)
+        std = f.encode(v)
+
+        def fill(cmd_, std=std):
+            if cmd_.cdb[0] == 0x12 and not cmd_.cdb[1] & 1 and len(cmd_.datain) >= 5 and not fill.done:
+                k = min(len(std), len(cmd_.datain))
+                cmd_.datain[:k] = std[:k]
+                fill.done = True
+
+        fill.done = False
+        dev = harness.Recorder(E.spc, fill)
+        try:
+            s_att = SCSI(dev, 0)
+            dev.opcodes = getattr(E, setname)
+            del dev.calls[:]
+            try:
+                harness.facade_call(c, s_att, DO.fresh(a) if c.custom else dict(a))
+            except Exception:  # noqa: BLE001
+                pass
+            for cmd2, _raw, _i, _o in dev.calls[:1]:
+                if c.custom:
+                    full["_outlen"] = len(cmd2.dataout)
+                observe(ctx, c, setname, "attached_facade", full, cmd2.cdb, c.op)
+                ctx.count("attached_facade_cdbs_checked")
+        except Exception as e:  # noqa: BLE001
+            ctx.fail("C01:attach_raises.%s" % type(e).__name__, "SCSI(dev) raised %s" % e, {"inquiry": std}, exc=e)
     # -- the cdb as received by the bindings
     for tname, mk in transports:
         dev, log = mk(setname)
         s = harness.make_facade(dev)
+        cmd_t = None
         try:
-            harness.facade_call(c, s, DO.fresh(a) if c.custom else dict(a))
+            cmd_t = harness.facade_call(c, s, DO.fresh(a) if c.custom else dict(a))
         except Exception:  # noqa: BLE001
             pass
         ctx.case((tname,) + rep, nontriv)
@@ -221,6 +262,19 @@ def run_one(ctx, c, setname, kind, a, do_facade, transports):
             observe(ctx, c, setname, tname, full, ev["cdb"], c.op)
             ctx.count("cdbs_checked")
             ctx.count("%s_cdbs_checked" % tname)
+        # the same command object sent again after its CDB was edited in place (the next LBA, another page): what reaches the
+        # binding is the CDB the object holds now
+        if cmd_t is not None and log and len(cmd_t.cdb) > 2 and kind != "huge*":
+            try:
+                del log[:]
+                cmd_t.cdb[len(cmd_t.cdb) - 2] ^= 0x01
+                dev.execute(cmd_t)
+                ctx.count("resends_after_in_place_edit")
+                if log and bytes(log[0]["cdb"]) != bytes(cmd_t.cdb):
+                    ctx.fail("C01:%s.resent_cdb_is_stale@%s" % (c.name, tname), "the command object was edited in place and sent again over %s: the binding received %s, the object holds %s"
+                             % (tname, bytes(log[0]["cdb"]).hex(), bytes(cmd_t.cdb).hex()), {"cmd": c.name, "table": setname, "args": a, "transport": tname})
+            except Exception:  # noqa: BLE001
+                pass
 
 
 def run(shard, ctx):
